@@ -27,6 +27,7 @@ from vgi_rpc.rpc import (
     _get_auth_and_metadata,
     _log_method_error,
     _read_request,
+    _RequestFramingError,
     _truncate_error_message,
     _validate_call_signature,
     _validate_params,
@@ -108,7 +109,7 @@ def _run_unary_sync(
             # is the method's own and gets the ordinary error path.
             _validate_call_signature(info.name, kwargs, info.param_types, info.param_defaults, info.params_schema)
             _validate_params(info.name, kwargs, info.param_types)
-        except (pa.ArrowInvalid, TypeError, StopIteration, RpcError, VersionError) as exc:
+        except (pa.ArrowInvalid, _RequestFramingError, TypeError, StopIteration, RpcError, VersionError) as exc:
             raise _RpcHttpError(exc, status_code=HTTPStatus.BAD_REQUEST) from exc
         except Exception as exc:
             # Resolving an ExternalLocation is part of reading the request but
